@@ -7,6 +7,7 @@ import (
 	"go/types"
 	"sort"
 	"strings"
+	"sync"
 
 	"golang.org/x/tools/go/ssa"
 )
@@ -321,6 +322,9 @@ func (in *Interp) global(v *ssa.Global) *Value {
 			et := v.Type().(*types.Pointer).Elem()
 			if types.Identical(et, types.Universe.Lookup("error").Type()) {
 				z = in.mkError(v.Pkg.Pkg.Name() + "." + v.Name())
+			} else if initWrites(v) && !modelledGlobals[v.Pkg.Pkg.Path()+"."+v.Name()] {
+				// the zero value would misrepresent the program: refuse rather than guess
+				in.fail("unsupported", "global "+v.Pkg.Pkg.Path()+"."+v.Name()+" has an initialiser in a package whose init is not executed (add the package to Config.RunInits or model the value)")
 			}
 		}
 		g = &z
@@ -663,4 +667,56 @@ func (in *Interp) show(v Value) string {
 		return s + "]"
 	}
 	return fmt.Sprintf("%T", v)
+}
+
+// modelledGlobals: globals of packages whose init is skipped that the engine may read as zero values
+// because every use is intercepted or the zero value is what the model wants.
+var modelledGlobals = map[string]bool{}
+
+var initWritesCache sync.Map // *ssa.Package -> map[*ssa.Global]bool
+
+// initWrites reports whether the package initialiser stores into global g (directly or into a part of it).
+func initWrites(g *ssa.Global) bool {
+	pkg := g.Pkg
+	if c, ok := initWritesCache.Load(pkg); ok {
+		return c.(map[*ssa.Global]bool)[g]
+	}
+	set := map[*ssa.Global]bool{}
+	var scan func(fn *ssa.Function)
+	seen := map[*ssa.Function]bool{}
+	scan = func(fn *ssa.Function) {
+		if fn == nil || seen[fn] || fn.Pkg != pkg {
+			return
+		}
+		seen[fn] = true
+		for _, b := range fn.Blocks {
+			for _, ins := range b.Instrs {
+				switch ins := ins.(type) {
+				case *ssa.Store:
+					a := ins.Addr
+					for {
+						switch x := a.(type) {
+						case *ssa.FieldAddr:
+							a = x.X
+							continue
+						case *ssa.IndexAddr:
+							a = x.X
+							continue
+						}
+						break
+					}
+					if gg, ok := a.(*ssa.Global); ok {
+						set[gg] = true
+					}
+				case *ssa.Call:
+					if callee := ins.Call.StaticCallee(); callee != nil && strings.HasPrefix(callee.Name(), "init#") {
+						scan(callee)
+					}
+				}
+			}
+		}
+	}
+	scan(pkg.Func("init"))
+	initWritesCache.Store(pkg, set)
+	return set[g]
 }
